@@ -31,7 +31,8 @@ CHECKS = {
     "C07": ("model_checking", "Fill.tla (the bar filler as a step machine over component widths; termination as a liveness property, exact body "
             "width and never-too-wide as invariants) and Row.tla (decorator layout, cut with ellipsis, spacing) are model-checked by TLC; every "
             "terminated call / layout TLC enumerates is replayed on the real fillers (2 palettes x 2 directions, spinner with frames of different widths, "
-            "history-independence of the bar filler, each row drawn again with colour-only Meta functions on every component) and on one-frame containers; narrow containers (width 1-32) under the gate scheduler.", "8 C07"),
+            "history-independence of the bar filler, each row drawn again with colour-only Meta functions on every component) and on one-frame containers; containers under the gate scheduler (Obs.tla rules row-too-wide, decorator-width-report): "
+            "narrow ones (width 1-32), frames with more rows than fit whose clipped bars come into view later, frames exactly as high as the limit.", "8 C07"),
     "C08": ("model_checking", "FillArith.tla: monotone, bounded, nearest-cell and end-point clauses checked by TLC over a grid; its table is replayed "
             "on the real filler at scales up to MaxInt64; random int64 triples are judged by exact integer arithmetic; refill clauses via Fill.tla rows.", "8 C08"),
     "C09": ("model_checking", "BarState.tla (one action per mutator, phases live/term/exited) is model-checked by TLC (invariants and action "
@@ -49,15 +50,17 @@ CHECKS = {
     "C12": ("model_checking", "Obs.tla rules column-width (all widths handed back in one column equal the maximum needed), plain-width, "
             "row-misaligned (text offsets) on every frame; probe decorators vary their needs per frame.", "8 C12"),
     "C13": ("model_checking", "Obs.tla rules text-lost, text-duplicated, rejected-text-emitted, text-out-of-order, late-write, short-write, "
-            "malformed-frame (text below a bar row), text-bytes-altered (lines written in two calls, repeated lines, empty writes).", "8 C13"),
+            "malformed-frame (text below a bar row), text-bytes-altered (lines written in two calls, repeated lines, empty writes); the screen "
+            "(Term.tla) on programs whose bars all leave while lines are still being written.", "8 C13"),
     "C14": ("model_checking", "cancel / Shutdown placed at every position of random programs; Obs.tla rules listener-count, listener-after-wait, "
-            "notifier-count, running-after-done, hang.", "8 C14"),
+            "notifier-count, running-after-done, hang; render errors in regular and final frames (the notifier still gets its one value).", "8 C14"),
     "C15": ("fault_enumeration", "fault at the k-th Fill / extender call / output Write of random programs with synchronised decorators on the other "
             "bars; Obs.tla rules frame-after-error, debug-lines, hang, goroutine-leak.", "8 C15"),
     "C16": ("model_checking", "after every scenario the worker drains all gates, waits for quiescence and inspects runtime.Stack for goroutines of "
             "its own bubble with a library frame (Obs.tla rule goroutine-leak).", "8 C16"),
     "C17": ("model_checking", "Obs.tla rules with-predecessor, successor-not-shown, queued-never-shown, priority hand-over (order), hang.", "8 C17"),
-    "C18": ("model_checking", "Obs.tla rules popped-not-on-top, order, last-row-not-final on pop-completed programs; Term.tla for the screen.", "8 C18"),
+    "C18": ("model_checking", "Obs.tla rules popped-not-on-top, popped-out-of-order, finished-bar-not-retired, last-row-not-final on pop-completed programs (incl. queued bars, 6-9 bars, "
+            "successors aimed at a frame window); Term.tla for the screen; MPBCore.tla invariant PoppedOnTop on configurations pop, popqueue and popprio (whose counterexample is finding F11 and replays on the code).", "8 C18"),
     "C19": ("model_checking", "Proxy.tla: the wrapped value is a script of (n, err) results with capabilities; invariants Transparent, Accounted, "
             "NeverOver, AllSamples hold on the reference machine (TLC); every terminal case is executed on the real ProxyReader / ProxyWriter and "
             "compared (results, forwarded Close, offered fast path, Bar.Current, samples seen by a recording moving average).", "8 C19"),
